@@ -275,7 +275,7 @@ fn mr_json(v: &[MaybeRelocatable]) -> Vec<String> {
 }
 
 /// Extra programs that reach hint kinds the e2e snippets with scalar parameters rarely do.
-const EXTRA: &[(&str, &str)] = &[
+pub const EXTRA: &[(&str, &str)] = &[
     ("u256_div", "fn f(a: u128, b: u128) -> u256 { let x = u256 { low: a, high: 3 }; let y = u256 { low: b, high: 0 }; if y == 0 { x } else { x / y } }\n"),
     ("u256_sqrt", "fn f(a: u128, b: u128) -> u128 { core::num::traits::Sqrt::sqrt(u256 { low: a, high: b }) }\n"),
     ("u128_sqrt", "fn f(a: u128) -> u64 { core::num::traits::Sqrt::sqrt(a) }\n"),
@@ -381,7 +381,7 @@ fn run_all(ctx: &mut Ctx) {
         }
         progs.push((s.name, s.code));
     }
-    progs.extend(EXTRA.iter().map(|(n, c)| (format!("hintx:{n}"), c.to_string())));
+    // (the hint-targeted programs `hintx:*` are part of the shared snippet list)
     progs.extend(divrem_lattice());
     let mut dbs = Dbs::default();
     let cfg = Cfg::DEFAULT;
